@@ -1,3 +1,46 @@
-/- C18 — property theorems (being extended). -/
-import CppUtil.Model.Zipf
+/-
+  C18 — the exact Zipf CDF follows Zipf's law; the approximation stays close.
+  Proved (exact arithmetic over any linearly ordered field, any positive `pw i = i^alpha` with
+  `pw 1 = 1`): the table entries are the normalised partial sums, the table is non-decreasing, its last
+  entry is 1, the approximate class equals the exact one for `n ≤ kExactBinNum`, and its last bin is
+  `H(n)/H(n) = 1`.
+  NOT provable here (tested only; DESIGN.md §6 C18): "up to floating-point rounding" and "within 0.01
+  for n ≥ 1000, 0 ≤ alpha ≤ 3" — the `Float` instance of the same definitions is compared bit for bit with
+  the implementation, and the implementation with a long double reference (known finding F9).
+-/
+import CppUtil.Proofs.ZipfTable
 import CppUtil.Gen.Zipf
+
+namespace CppUtil.Props
+open CppUtil CppUtil.Zipf
+
+variable {K : Type} [Field K] [LinearOrder K] [IsStrictOrderedRing K]
+
+theorem c18_exact_entries (pw pw' lg : Nat → K) (z : Bool) (two : K) (hpw : ∀ i, 0 < pw i) (hpw1 : pw 1 = 1)
+    (n : Nat) (hn : 2 ≤ n) :
+    (∀ k, k < n - 1 → (exactTable (fieldArith pw pw' lg z two) n).getD k 0 = S pw (k + 1) / S pw n) ∧
+    (exactTable (fieldArith pw pw' lg z two) n).getD (n - 1) 0 = 1 :=
+  exactTable_spec pw pw' lg z two hpw hpw1 n hn
+
+theorem c18_exact_monotone (pw pw' lg : Nat → K) (z : Bool) (two : K) (hpw : ∀ i, 0 < pw i) (hpw1 : pw 1 = 1)
+    (n : Nat) (hn : 2 ≤ n) (i j : Nat) (hij : i ≤ j) (hj : j < n) :
+    (exactTable (fieldArith pw pw' lg z two) n).getD i 0 ≤ (exactTable (fieldArith pw pw' lg z two) n).getD j 0 :=
+  exactTable_mono pw pw' lg z two hpw hpw1 n hn i j hij hj
+
+/-- one bin: the table is `[1]` (also the default-constructed generator) -/
+theorem c18_one_bin (pw pw' lg : Nat → K) (z : Bool) (two : K) (n : Nat) (hn : n ≤ 1) :
+    exactTable (fieldArith pw pw' lg z two) n = #[1] := by
+  unfold exactTable; rw [if_pos hn]; rfl
+
+theorem c18_approx_equals_exact (pw pw' lg : Nat → K) (z : Bool) (two : K) (n : Nat) (hn : 2 ≤ n)
+    (hE : n ≤ Gen.zipfExactBinNum) (k : Nat) (hk : k < n) :
+    (approxHead (fieldArith pw pw' lg z two) n Gen.zipfExactBinNum Gen.zipfSkipSize).getD k 0 =
+    (exactTable (fieldArith pw pw' lg z two) n).getD k 0 :=
+  approxHead_eq_exact pw pw' lg z two n _ _ hn hE k hk
+
+theorem c18_approx_last_is_one (pw pw' lg : Nat → K) (z : Bool) (two : K) (head : Array K) (n : Nat)
+    (hn : Gen.zipfExactBinNum < n) (hne : harmonic (fieldArith pw pw' lg z two) n ≠ 0) :
+    approxCDF (fieldArith pw pw' lg z two) head (harmonic (fieldArith pw pw' lg z two) n) Gen.zipfExactBinNum (n - 1) = 1 :=
+  approxCDF_last pw pw' lg z two head n _ hn hne
+
+end CppUtil.Props
